@@ -13,62 +13,65 @@ using namespace jsoncons;
 #define NKEY 2
 #define NN ((1u << (DEPTH + 1)) - 1)
 extern "C" { unsigned mj_over; }
-// A value owns NN inline node slots (complete binary tree positions).  An MJ object is either a value (st == this, idx == 0) or a non-owning HANDLE
-// to position idx inside another value (what member.value() returns).  No heap, no arena: every pointer targets a named local object.
+// MJ is a pure VALUE type: NN inline node slots (positions of a complete binary tree), no pointers, no heap.  member.value() returns a reference to a copy of
+// the member's subtree held inside the iterator (mergepatch.hpp only reads through value()); try_emplace copies a value into the member's positions.
 struct MJ {
     unsigned char f[NN][4];      // per position: kind (0 null, 1 int, 2 object), val, has[a], has[b]
-    MJ* st; unsigned idx;
-    struct handle_t {};
-    MJ(handle_t, MJ* store, unsigned i) : st(store), idx(i) {}
-    void zero() { for (unsigned i = 0; i < NN; ++i) { f[i][0] = f[i][1] = f[i][2] = f[i][3] = 0; } st = this; idx = 0; }
+    void zero() { for (unsigned i = 0; i < NN; ++i) { f[i][0] = f[i][1] = f[i][2] = f[i][3] = 0; } }
     MJ() { zero(); }
     explicit MJ(json_object_arg_t) { zero(); f[0][0] = 2; }
-    MJ(const MJ& o) { zero(); assign(o); }
-    MJ& operator=(const MJ& o) { if (this != &o) assign(o); return *this; }
-    unsigned char& F(unsigned i, unsigned w) const { return st->f[i < NN ? i : NN - 1][w]; }
-    void assign(const MJ& o) {
-        unsigned si[NN], di[NN]; unsigned char t[NN][4]; unsigned char live[NN];
-        si[0] = o.idx; di[0] = idx; live[0] = 1;
-        for (unsigned p = 1; p < NN; ++p) { unsigned par = (p - 1) / 2, k = (p - 1) % 2; si[p] = si[par] < NN ? 2 * si[par] + 1 + k : NN; di[p] = di[par] < NN ? 2 * di[par] + 1 + k : NN;
-            live[p] = (live[par] && si[par] < NN && o.F(si[par], 0) == 2 && o.F(si[par], 2 + k)) ? 1 : 0; }
-        for (unsigned p = 0; p < NN; ++p) { t[p][0] = t[p][1] = t[p][2] = t[p][3] = 0; if (live[p]) { if (si[p] >= NN) { mj_over = 1; continue; } for (unsigned w = 0; w < 4; ++w) t[p][w] = o.F(si[p], w); } }
-        for (unsigned p = 0; p < NN; ++p) { if (di[p] < NN) { for (unsigned w = 0; w < 4; ++w) F(di[p], w) = t[p][w]; } else if (live[p]) mj_over = 1; }
-    }
+    MJ(const MJ& o) { for (unsigned i = 0; i < NN; ++i) for (unsigned w = 0; w < 4; ++w) f[i][w] = o.f[i][w]; }
+    MJ& operator=(const MJ& o) { for (unsigned i = 0; i < NN; ++i) for (unsigned w = 0; w < 4; ++w) f[i][w] = o.f[i][w]; return *this; }
     static MJ null() { return MJ(); }
-    bool is_object() const { return F(idx, 0) == 2; }
-    bool is_null() const { return F(idx, 0) == 0; }
-    bool hask(int k) const { return F(idx, 0) == 2 && F(idx, 2 + k) != 0; }
-    unsigned kidx(int k) const { unsigned c = 2 * idx + 1 + (unsigned)k; if (c >= NN) { mj_over = 1; c = NN - 1; } return c; }
+    bool is_object() const { return f[0][0] == 2; }
+    bool is_null() const { return f[0][0] == 0; }
+    bool is_array() const { return false; }
+    bool is_string() const { return false; }
+    bool is_number() const { return f[0][0] == 1; }
+    bool hask_(int k) const { return f[0][0] == 2 && f[0][2 + k] != 0; }
+    bool hask(int k) const { return k == 0 ? hask_(0) : k == 1 ? hask_(1) : false; }
+    bool empty() const { return f[0][0] == 2 && !f[0][2] && !f[0][3]; }          // as basic_json::empty(): true for an object without members, false for null / numbers
+    std::size_t size() const { return f[0][0] == 2 ? (std::size_t)(f[0][2] != 0) + (f[0][3] != 0) : 0; }
+    // positions of member k's subtree inside this value: cm[p] for child-relative position p
+    static void childmap(int k, unsigned* cm) { cm[0] = 1 + (unsigned)k; for (unsigned p = 1; p < NN; ++p) { unsigned par = (p - 1) / 2, kk = (p - 1) % 2; cm[p] = cm[par] < NN ? 2 * cm[par] + 1 + kk : NN; } }
+    MJ sub(int k) const { return k == 0 ? sub_(0) : sub_(1); }
+    MJ sub_(int k) const { MJ r; unsigned cm[NN]; childmap(k, cm); for (unsigned p = 0; p < NN; ++p) if (cm[p] < NN) for (unsigned w = 0; w < 4; ++w) r.f[p][w] = f[cm[p]][w]; return r; }
+    void put(int k, const MJ& v) { if (k == 0) put_(0, v); else put_(1, v); }
+    void put_(int k, const MJ& v) { unsigned cm[NN]; childmap(k, cm); unsigned char live[NN]; live[0] = 1;
+        for (unsigned p = 0; p < NN; ++p) { if (p) { unsigned par = (p - 1) / 2, kk = (p - 1) % 2; live[p] = live[par] && v.f[par][0] == 2 && v.f[par][2 + kk]; }
+            if (cm[p] < NN) { for (unsigned w = 0; w < 4; ++w) f[cm[p]][w] = live[p] ? v.f[p][w] : 0; } else if (live[p]) mj_over = 1; }   // deeper than the bound: reported
+        f[0][2 + k] = 1; }
     struct iter; struct range;
-    range object_range() const; iter find(int key) const; void erase(const iter& it);
-    void try_emplace(int key, const MJ& v) { if (is_object() && !hask(key)) { MJ h(handle_t(), st, kidx(key)); h.assign(v); F(idx, 2 + key) = 1; } }
+    range object_range() const; iter find(int key) const; void erase(const iter& it); void erase(int key) { if (key == 0) { if (hask_(0)) f[0][2] = 0; } else if (key == 1) { if (hask_(1)) f[0][3] = 0; } }
+    bool contains(int key) const { return hask(key); }
+    MJ at(int key) const { return sub(key); }
+    void try_emplace(int key, const MJ& v) { if (is_object() && key >= 0 && key < NKEY && !hask(key)) put(key, v); }
+    void insert_or_assign(int key, const MJ& v) { if (is_object() && key >= 0 && key < NKEY) put(key, v); }
     bool operator==(const MJ& o) const {
-        unsigned ai[NN], bi[NN]; unsigned char live[NN]; ai[0] = idx; bi[0] = o.idx; live[0] = 1;
+        unsigned char live[NN]; live[0] = 1;
         for (unsigned p = 0; p < NN; ++p) {
-            if (p) { unsigned par = (p - 1) / 2, k = (p - 1) % 2; ai[p] = ai[par] < NN ? 2 * ai[par] + 1 + k : NN; bi[p] = bi[par] < NN ? 2 * bi[par] + 1 + k : NN;
-                live[p] = (live[par] && F(ai[par], 0) == 2 && F(ai[par], 2 + k)) ? 1 : 0; }
+            if (p) { unsigned par = (p - 1) / 2, k = (p - 1) % 2; live[p] = live[par] && f[par][0] == 2 && f[par][2 + k]; }
             if (!live[p]) continue;
-            if (ai[p] >= NN || bi[p] >= NN) { mj_over = 1; return false; }
-            if (F(ai[p], 0) != o.F(bi[p], 0)) return false;
-            if (F(ai[p], 0) == 1 && F(ai[p], 1) != o.F(bi[p], 1)) return false;
-            if (F(ai[p], 0) == 2 && (F(ai[p], 2) != o.F(bi[p], 2) || F(ai[p], 3) != o.F(bi[p], 3))) return false;
+            if (f[p][0] != o.f[p][0]) return false;
+            if (f[p][0] == 1 && f[p][1] != o.f[p][1]) return false;
+            if (f[p][0] == 2 && ((f[p][2] != 0) != (o.f[p][2] != 0) || (f[p][3] != 0) != (o.f[p][3] != 0))) return false;
         }
         return true;
     }
     bool operator!=(const MJ& o) const { return !(*this == o); }
 };
-struct mj_member { MJ child; int k; mj_member(MJ* store, unsigned ci, int kk) : child(MJ::handle_t(), store, ci), k(kk) {} int key() const { return k; } MJ& value() { return child; } const MJ& value() const { return child; } };
-struct MJ::iter { MJ* owner; int k; mutable mj_member m;
-    iter(MJ* o, int kk) : owner(o), k(kk), m(o->st, 0, kk) {}
-    void skip() { while (k < NKEY && !owner->hask(k)) ++k; }
-    mj_member& operator*() const { m.child.st = owner->st; m.child.idx = owner->kidx(k); m.k = k; return m; }
+struct mj_member { MJ val; int k; int key() const { return k; } MJ& value() { return val; } const MJ& value() const { return val; } };
+struct MJ::iter { const MJ* owner; int k; mutable mj_member m;
+    iter(const MJ* o, int kk) : owner(o), k(kk) { m.k = kk; }
+    void skip() { if (k == 0 && !owner->hask_(0)) k = 1; if (k == 1 && !owner->hask_(1)) k = 2; }
+    mj_member& operator*() const { if (k == 0) { m.k = 0; m.val = owner->sub_(0); } else if (k == 1) { m.k = 1; m.val = owner->sub_(1); } else m.k = k; return m; }
     iter& operator++() { ++k; skip(); return *this; }
     bool operator!=(const iter& o) const { return k != o.k; }
     bool operator==(const iter& o) const { return k == o.k; } };
 struct MJ::range { MJ::iter b, e; MJ::iter begin() const { return b; } MJ::iter end() const { return e; } };
-inline MJ::range MJ::object_range() const { MJ* s = const_cast<MJ*>(this); iter b{s, 0}; b.skip(); return range{b, iter{s, NKEY}}; }
-inline MJ::iter MJ::find(int key) const { MJ* s = const_cast<MJ*>(this); if (key >= 0 && key < NKEY && hask(key)) return iter{s, key}; return iter{s, NKEY}; }
-inline void MJ::erase(const iter& it) { if (is_object() && it.k < NKEY) F(idx, 2 + it.k) = 0; }
+inline MJ::range MJ::object_range() const { iter b{this, 0}; b.skip(); return range{b, iter{this, NKEY}}; }
+inline MJ::iter MJ::find(int key) const { if (hask(key)) return iter{this, key}; return iter{this, NKEY}; }
+inline void MJ::erase(const iter& it) { if (is_object()) { if (it.k == 0) f[0][2] = 0; else if (it.k == 1) f[0][3] = 0; } }
 struct fnode { unsigned char kind, val, has[NKEY]; };
 static void build(MJ& j, const fnode* f) { for (unsigned i = 0; i < NN; ++i) { j.f[i][0] = f[i].kind; j.f[i][1] = f[i].val; j.f[i][2] = f[i].has[0]; j.f[i][3] = f[i].has[1]; } }
 // canonical dump: unreachable positions zero
